@@ -203,6 +203,7 @@ func c13Check(ctx *core.Ctx, kind, doc string) {
 		return
 	}
 	ctx.Count("decode_ok", 1)
+	c13Reused(ctx, doc)
 	var verr error
 	if !ctx.Call("Validate", func() { verr = expr.Validate(&d) }) {
 		return
@@ -224,6 +225,31 @@ func c13Check(ctx *core.Ctx, kind, doc string) {
 	if ctx.Index()%501 == 0 {
 		ctx.Sample("validated_"+kind, doc)
 	}
+}
+
+// c13Reused decodes the document into a value that already holds a decoded, validated
+// expression (a caller may reuse a decode target): whatever Validate says about the value
+// afterwards guards the same calls. A library that remembers an earlier verdict for the value
+// shows here. The sequence is complete within the case, so a replay needs no predecessor.
+func c13Reused(ctx *core.Ctx, doc string) {
+	t := new(expr.Expression)
+	if err := json.Unmarshal([]byte(`{"left":"a","operator":"EQUALS","right":"b"}`), t); err != nil || expr.Validate(t) != nil {
+		return
+	}
+	var uerr, verr error
+	if !ctx.Call("UnmarshalJSON(reused target)", func() { uerr = json.Unmarshal([]byte(doc), t) }) || uerr != nil {
+		return
+	}
+	ctx.Count("reused_target_decodes", 1)
+	if !ctx.Call("Validate(reused target)", func() { verr = expr.Validate(t) }) || verr != nil {
+		return
+	}
+	ctx.Count("reused_target_validated", 1)
+	ctx.Call("String(reused target)", func() { _ = t.String() })
+	ctx.Call("GoString(reused target)", func() { _ = fmt.Sprintf("%#v", t) })
+	ctx.Call("MarshalJSON(reused target)", func() { _, _ = json.Marshal(t) })
+	ctx.Call("Render(reused target)", func() { _, _ = c13Driver.Render(t) })
+	ctx.Call("RenderParam(reused target)", func() { _, _, _ = c13Driver.RenderParam(t) })
 }
 
 func (c13) Finish(res *core.Result, cov map[string]any) []string {
